@@ -2,6 +2,8 @@ import NssVerif.RealInst
 import NssVerif.Model.Cphot
 import NssVerif.Model.Clouds
 import NssVerif.Gen.CloudGrid
+import NssVerif.Gen.Src.C09
+import NssVerif.Gen.Src.C19
 import NssVerif.Lemmas.Clouds
 import NssVerif.Lemmas.Cphot
 import NssVerif.Lemmas.Zsteps
@@ -242,5 +244,100 @@ theorem masked_terms_vanish (c : Consts ℝ) (tv A : ℝ) (eh : List ℝ) (sg : 
     rw [hz y hy]; simp
   have h2 : Scalar.sum o.spy = 0 := Lemmas.Cphot.sum_zero _ hz
   rw [h1, h2]; simp
+
+/-! ### source tie: the map lookup translated from the Python source of the working tree IS the model
+
+`Gen/Src/C09.lean` is regenerated from `simulation/atmosphere/clouds.py` on every run (harness/pytrans.py,
+harness/srcspecs/C09.py): the closure `f(lat, long)` returned by `altitude_from_pressure_map_v0(map)`, with the enclosing
+function executed on the shipped month-1 map (only its shape, 361 × 576, enters), the two `np.linspace` grids read as the
+idealised grids `Np.linspace` (lean/NssVerif/Model/Numpy.lean), the read `map[i, j]` an opaque input `pressure`, the indices
+`(i, j)` returned in front of the result, and the call of `atm.us_std_atm_altitude_from_pressure` translated in place.
+
+For every `Scalar` instance (`rfl`): the translated function is (row index, column index, translated C19 altitude function of
+the map entry), with the row index the model's and the column index the model's up to how the longitude wrap is written.  The
+source's `x % 360.0` is read as `x − 360.0·floor(x/360.0)` where the model writes `x − floor(x/360.0)·360.0`: equal over ℝ
+(`mul_comm`; also equal at `Float`, IEEE multiplication being commutative, but that is not a statement about an abstract
+`Scalar`), so the column index and the full statement are proved at ℝ. -/
+
+/-- the translator's reading of `np.linspace` is the model's grid -/
+theorem np_linspace_eq {α : Type} [Scalar α] (lo hi : α) (n : Nat) : Np.linspace lo hi n = linspace lo hi n := rfl
+
+/-- the translator's reading of `np.searchsorted` is the model's scan -/
+theorem np_searchsortedLeft_eq {α : Type} [Scalar α] (xs : List α) (x : α) :
+    Np.searchsortedLeft xs x = searchsortedLeft xs x := rfl
+
+theorem linspace_length_any {α : Type} [Scalar α] (lo hi : α) (n : Nat) : (linspace lo hi n).length = n := by
+  simp [linspace]
+
+/-- the longitude wrap as the source computes it: `(d + 180.0) % 360.0 - 180.0` with `x % m = x − m·floor(x/m)` -/
+def srcWrap {α : Type} [Scalar α] (d : α) : α :=
+  ((d + 180.0) - 360.0 * Scalar.floor ((d + 180.0) / 360.0)) - 180.0
+
+theorem srcWrap_eq (d : ℝ) : srcWrap d = wrapLongDeg d := by
+  unfold srcWrap wrapLongDeg
+  simp only []
+  rw [mul_comm]
+
+/-- the translated closure, for every `Scalar` instance: row and column by `min(searchsorted(grid, degrees), size − 1)` on the
+idealised 361- and 576-node grids, altitude by the translated `us_std_atm_altitude_from_pressure` of `eas_optical`
+(`Gen.Src.C19.altitudeFromPressureB`, which `C19.src_altitudeFromPressureB` proves equal to the C19 model) -/
+theorem src_mapAltitude_generic {α : Type} [Scalar α] (lat long p inf : α) :
+    Gen.Src.C09.mapAltitude lat long p inf
+      = (Nat.min (searchsortedLeft (latNodes 361) (Scalar.degrees lat)) 360,
+         Nat.min (searchsortedLeft (longNodes 576) (srcWrap (Scalar.degrees long))) 575,
+         Gen.Src.C19.altitudeFromPressureB p inf) := rfl
+
+/-- the row index of the translated source is the model's, for every `Scalar` instance -/
+theorem src_mapAltitude_row {α : Type} [Scalar α] (lat long p inf : α) :
+    (Gen.Src.C09.mapAltitude lat long p inf).1 = (mapIndex 361 576 lat long).1 := by
+  rw [src_mapAltitude_generic]
+  simp only [mapIndex, nodeIndex, latNodes, linspace_length_any]
+
+/-- the column index of the translated source is the model's (ℝ: see the section header) -/
+theorem src_mapAltitude_col (lat long p inf : ℝ) :
+    (Gen.Src.C09.mapAltitude lat long p inf).2.1 = (mapIndex 361 576 lat long).2 := by
+  rw [src_mapAltitude_generic]
+  simp only [mapIndex, nodeIndex, longNodes, linspace_length_any, srcWrap_eq]
+
+/-- the pressure → altitude composition: the translated source applies the translated C19 function to the entry it read -/
+theorem src_mapAltitude_alt {α : Type} [Scalar α] (lat long p inf : α) :
+    (Gen.Src.C09.mapAltitude lat long p inf).2.2 = Gen.Src.C19.altitudeFromPressureB p inf := rfl
+
+/-- **`altitude_from_pressure_map_v0(map)(lat, long)` as translated from the source is the model's `mapAltitude`**: fed with the
+entry of `map` at the model's cell `(i, j)`, the translated closure reads at exactly that cell and returns the model's altitude
+(the C19 function being the translated one) -/
+theorem src_mapAltitude (lat long inf : ℝ) (map : Nat → Nat → ℝ) :
+    Gen.Src.C09.mapAltitude lat long (map (mapIndex 361 576 lat long).1 (mapIndex 361 576 lat long).2) inf
+      = ((mapIndex 361 576 lat long).1, (mapIndex 361 576 lat long).2,
+         mapAltitude (fun P => Gen.Src.C19.altitudeFromPressureB P inf) map 361 576 lat long) := by
+  refine Prod.ext ?_ (Prod.ext ?_ ?_)
+  · exact src_mapAltitude_row _ _ _ _
+  · exact src_mapAltitude_col _ _ _ _
+  · exact src_mapAltitude_alt _ _ _ _
+
+/-- the shape the closure was translated for is the shape of all 12 shipped maps -/
+theorem src_shape_is_shipped : ∀ s ∈ Gen.CloudGrid.shapes, s = (361, 576) := by decide
+
+/-- hence `map_lookup_cell` speaks about the translated source: the cell it reads is a corner of the cell containing the site -/
+theorem src_map_lookup_cell (lat long p inf : ℝ) (h1 : -(π / 2) ≤ lat) (h2 : lat ≤ π / 2) :
+    IsCellCorner (latNodes 361) (Scalar.degrees lat) (Gen.Src.C09.mapAltitude lat long p inf).1
+      ∧ IsCellCorner (longNodes 576) (wrapLongDeg (Scalar.degrees long)) (Gen.Src.C09.mapAltitude lat long p inf).2.1 := by
+  rw [src_mapAltitude_row, src_mapAltitude_col]
+  constructor
+  · have hr := degrees_lat_range lat h1 h2
+    show IsCellCorner (latNodes 361) (Scalar.degrees lat) (nodeIndex (latNodes 361) (Scalar.degrees lat))
+    apply nodeIndex_corner _ _ (linspace_ne_nil _ _ 361 (by norm_num))
+    · rw [linspace_head _ _ 361 (by norm_num)]
+      simp only [ofNat_eq, Nat.cast_ofNat]; exact hr.1
+    · rw [linspace_last _ _ 361 (by norm_num)]
+      simp only [ofNat_eq, Nat.cast_ofNat]; exact hr.2
+  · have hr := wrap_long_range (Scalar.degrees long)
+    show IsCellCorner (longNodes 576) (wrapLongDeg (Scalar.degrees long))
+      (nodeIndex (longNodes 576) (wrapLongDeg (Scalar.degrees long)))
+    apply nodeIndex_corner _ _ (linspace_ne_nil _ _ 576 (by norm_num))
+    · rw [linspace_head _ _ 576 (by norm_num)]
+      simp only [ofNat_eq, Nat.cast_ofNat]; exact hr.1
+    · rw [linspace_last _ _ 576 (by norm_num)]
+      simp only [ofNat_eq, Nat.cast_ofNat]; exact hr.2.le
 
 end C09
